@@ -50,14 +50,16 @@ def rootGeom (cfg : RootCfg) (orig : Attrs) (bb0 : BoundingBox) (a : Attrs) : Op
   let bb := extent cfg bb0
   let w := bb.width
   let h := bb.height
+  -- a degenerate extent has no aspect ratio: nothing is derived from a single dimension
+  let hasRatio := decide (0 < w) && decide (0 < h)
   let a : Option Attrs :=
     match orig.get cs!"width", orig.get cs!"height" with
     | none, none =>
       some ((a.insert cs!"width" (fstr (w * cfg.scale) ++ cs!"mm")).insert cs!"height" (fstr (h * cfg.scale) ++ cs!"mm"))
     | some ow, none =>
-      (splitUnit ow).map fun (v, u) => a.insert cs!"height" (fstr (v / (w / h)) ++ u)
+      if hasRatio then (splitUnit ow).map fun (v, u) => a.insert cs!"height" (fstr (v / (w / h)) ++ u) else some a
     | none, some oh =>
-      (splitUnit oh).map fun (v, u) => a.insert cs!"width" (fstr (v * (w / h)) ++ u)
+      if hasRatio then (splitUnit oh).map fun (v, u) => a.insert cs!"width" (fstr (v * (w / h)) ++ u) else some a
     | some _, some _ => some a
   a.map fun a =>
     if orig.contains cs!"viewBox" then a
